@@ -13,6 +13,7 @@ sequence, every visiting order of `bytable[table]` and every outcome of the coin
 (both are arguments of the operations).  Helper lemmas: `Gsu/Proofs/Ck.lean`.
 -/
 import Gsu.Proofs.CkLog
+import Gsu.Proofs.CkExcl
 import Gsu.Gen.Check
 namespace Gsu.Props.C01
 open Gsu.Ck
@@ -93,6 +94,25 @@ theorem ck_retained (ops : List Op) (tn : Nat) (T : Tran)
     (∃ T' ∈ (abort (run {} ops) tn).1.trans, T'.start = T.start ∧ T'.end_ = T.end_ ∧ T'.acts = T.acts) ∨
     (∀ A ∈ (abort (run {} ops) tn).1.trans, A.active = true → ∀ e, T.end_ = some e → e < A.start) :=
   (frame_abort (ck_inv ops) tn).keep T hT hna
+
+/-- `ck_exclusive`: exclusive schema operations keep every writer out.  After a successful
+`AddExclusive(tbl)` in ANY checker state, whatever operations follow — commits and aborts of
+other transactions (also when they leave no update transaction active), ticks, other tables'
+exclusives, `cleanEnded` — as long as `EndExclusive(tbl)` is not among them, every
+Output/Delete/Update on `tbl` is refused. -/
+theorem ck_exclusive (s : State) (tbl : Nat) (h : (addExcl s tbl).2 = true) (ops : List Op)
+    (hn : ∀ op ∈ ops, op ≠ .endExcl tbl) (tn : Nat) (ks nk : List Key) (o p : List Nat) :
+    (output (run (addExcl s tbl).1 ops) tn tbl ks o p).2 = false ∧
+    (delete (run (addExcl s tbl).1 ops) tn tbl ks o p).2 = false ∧
+    (update (run (addExcl s tbl).1 ops) tn tbl ks nk o p).2 = false := by
+  have hx := exclOn_run ops _ (addExcl_on h) hn
+  exact ⟨write_blocked hx tn _ _ _ o p, write_blocked hx tn _ _ _ o p, write_blocked hx tn _ _ _ o p⟩
+
+-- non-vacuity: table 0 exclusive, an unrelated transaction on table 1 commits leaving nobody
+-- active, then a new transaction's insert into table 0 is refused
+example : (step (run {} [.addExcl 0, .start, .output 3 1 [[97]] [] [], .commit 3, .start])
+    (.output 7 0 [[98]] [] [])).2 = .bool false := by decide
+example : (addExcl {} 0).2 = true := by decide
 
 /-! ### regenerated definitions (G) -/
 
